@@ -1,5 +1,6 @@
 import Ruint.Lemmas.Codec.Rlp
 import Ruint.Lemmas.Codec.RlpParity
+import Ruint.Lemmas.Codec.RlpBits
 import Ruint.Lemmas.Codec.Scale
 import Ruint.Lemmas.Codec.Fixed
 import Ruint.Lemmas.Codec.Der
@@ -53,6 +54,10 @@ theorem rlp_roundtrip (bits v : ℕ) (tail : List ℕ) (hv : v < 2 ^ bits) (hB :
 /-- round trip for parity `rlp`. -/
 theorem rlp_parity_roundtrip (bits v : ℕ) (tail : List ℕ) (hv : v < 2 ^ bits) (hB : byteLen (nbytes bits) ≤ 8) :
     Rlp.decParity bits (Rlp.enc v ++ tail) = .ok v := Rlp.decParity_enc bits v tail hv hB
+
+/-- `Bits` through parity rlp: the full `BYTES`-long big-endian string round-trips. -/
+theorem rlp_bits_roundtrip (bits v : ℕ) (tail : List ℕ) (hv : v < 2 ^ bits) (hB : byteLen (nbytes bits) ≤ 8) :
+    Rlp.decParityBits bits (Rlp.encBits bits v ++ tail) = .ok v := Rlp.decParityBits_enc bits v tail hv hB
 
 /-! ## SCALE -/
 
